@@ -423,6 +423,12 @@ func init() {
 	registerRule(&RuleDef{ID: "CH-CLOSE", Min: 1, Doc: "no channel held in a struct field is both closed and sent on", Run: ruleCHCLOSE})
 	add("C18", "CH-CLOSE")
 	add("C16", "CH-CLOSE")
+	registerRule(&RuleDef{ID: "V-JOIN", Min: 1, Doc: "TableCache.Run returns only after the event processor it runs has stopped", Run: ruleVJOIN})
+	add("C14", "V-JOIN")
+	add("C16", "V-JOIN")
+	add("C06", "X5")
+	add("C18", "E7", "R-DEFER", "R-ONCE")
+	add("C20", "K5")
 	add("C01", "ERR-LOOP")
 	add("C03", "X1", "MAX-ONE")
 	add("C04", "MAX-ONE")
